@@ -180,6 +180,38 @@ impl Bim for KeyedBTree {
     }
 }
 
+/// Keyed bimorphism with every combination of HashMap / BTreeMap as LEFT and RIGHT argument
+/// (a BTreeMap argument makes the key iteration order deterministic).
+macro_rules! keyed_spec {
+    ($name:ident, $label:expr, $ma:ident, $sa:ident, $mb:ident, $sb:ident, $mo:ident, $so:ident) => {
+        pub struct $name(pub u8, pub u8);
+        impl Bim for $name {
+            type A = MapUnion<$ma<u8, SetUnion<$sa<u8>>>>;
+            type B = MapUnion<$mb<u8, SetUnion<$sb<u8>>>>;
+            type O = MapUnion<$mo<u8, SetUnion<$so<(u8, u8)>>>>;
+            fn name(&self) -> String { format!("KeyedBimorphism<_,CartesianProduct> [{}] keys={} vals={}", $label, self.0, self.1) }
+            fn ua(&self) -> Vec<Rows> { u_maps(self.0, self.1) }
+            fn ub(&self) -> Vec<Rows> { u_maps(self.0, self.1) }
+            fn mk_a(&self, r: &Rows) -> Self::A { MapUnion::new(r.iter().map(|row| (row[0], SetUnion::new(row[1..].iter().copied().collect::<$sa<u8>>()))).collect::<$ma<_, _>>()) }
+            fn mk_b(&self, r: &Rows) -> Self::B { MapUnion::new(r.iter().map(|row| (row[0], SetUnion::new(row[1..].iter().copied().collect::<$sb<u8>>()))).collect::<$mb<_, _>>()) }
+            fn join_a(&self, a: Self::A, d: Self::A) -> Self::A { Merge::merge_owned(a, d) }
+            fn join_b(&self, b: Self::B, d: Self::B) -> Self::B { Merge::merge_owned(b, d) }
+            fn call(&self, a: Self::A, b: Self::B) -> Self::O {
+                KeyedBimorphism::<$mo<u8, SetUnion<$so<(u8, u8)>>>, _>::new(CartesianProductBimorphism::<$so<(u8, u8)>>::default()).call(a, b)
+            }
+            fn join_o(&self, x: Self::O, y: Self::O) -> Self::O { Merge::merge_owned(x, y) }
+            fn eq_o(&self, x: &Self::O, y: &Self::O) -> bool { x == y }
+            fn abs_o(&self, x: &Self::O) -> Abs {
+                norm(x.as_reveal_ref().iter().flat_map(|(k, s)| s.as_reveal_ref().iter().map(move |(a, b)| pack(&[*k, *a, *b]))).collect())
+            }
+        }
+    };
+}
+keyed_spec!(KeyedHH, "HashMap x HashMap -> HashMap", HashMap, HashSet, HashMap, HashSet, HashMap, HashSet);
+keyed_spec!(KeyedHB, "HashMap x BTreeMap -> HashMap", HashMap, HashSet, BTreeMap, BTreeSet, HashMap, HashSet);
+keyed_spec!(KeyedBH, "BTreeMap x HashMap -> BTreeMap", BTreeMap, BTreeSet, HashMap, HashSet, BTreeMap, BTreeSet);
+keyed_spec!(KeyedBB, "BTreeMap x BTreeMap -> BTreeMap", BTreeMap, BTreeSet, BTreeMap, BTreeSet, BTreeMap, BTreeSet);
+
 // ------------------------------------------------------------------------------------------------
 // PairBimorphism
 // ------------------------------------------------------------------------------------------------
